@@ -1,8 +1,8 @@
 (* C02 -- pipelines: wiring, EOF, every stage started once, status of the last stage.
-   Model as of /repo 567a7de (variant v0 = the code as it is; the theorems hold for every variant). *)
+   Model as of /repo d4ac685 (v0 = the code as it is). *)
 From Coq Require Import List Arith Bool ZArith Permutation Lia.
 From Cicada Require Import Model.OsLite Model.Pipeline Model.WaitFg
-     Proofs.OsLiteProofs Proofs.PipelineProofs Proofs.ChildProofs Proofs.WaitFgProofs.
+     Proofs.OsLiteProofs Proofs.PipelineProofs Proofs.ChildProofs Proofs.EofProofs Proofs.WaitFgProofs.
 Import ListNotations.
 
 Definition nf (_ : nat) := false.
@@ -43,10 +43,39 @@ Proof.
   split; [exact B | exact C].
 Qed.
 
-(* EOF: every stage is forked exactly once and, after the last fork, the shell holds no pipe end at all
-   (its table is what it was): together with C02_wiring (each stage holds exactly its two adjacent ends on
-   0 and 1) and C08_children (nothing else above 2) the write end of pipe k is held by stage k only and
-   its read end by stage k+1 only *)
+(* EOF: who holds which pipe end once all stages are started.  For every n, every initial table that holds
+   nothing but inherited objects, every plan: the shell holds no pipe end at all; an exec'd stage can hold the
+   write end of stage pipe j only if it IS stage j (on 1, or on 2 after 2>&1) and the read end of pipe j only
+   if it is stage j+1 (on 0).  With C02_wiring (a stage without redirections does hold them) the holders of
+   the write end of pipe k are exactly {stage k} and of its read end exactly {stage k+1}: a reader sees EOF
+   as soon as its upstream stage is gone, a writer gets SIGPIPE as soon as its downstream stage is gone. *)
+Definition holds_only_own_ends (pc idx : nat) (k : kid) : Prop :=
+  k_out k = OExec ->
+  forall x j c,
+    (lookup (tab (k_proc k)) x = Some (OPipeW (PStage j), c) -> j = idx /\ idx < pc /\ (x = 1 \/ x = 2)) /\
+    (lookup (tab (k_proc k)) x = Some (OPipeR (PStage j), c) -> idx = S j /\ x = 0).
+
+Theorem C02_eof : forall fail_at openable pl sh i0 o0 e0,
+  std_ok (tab sh) i0 o0 e0 -> inh_only (tab sh) -> is_single_builtin pl = false ->
+  let r := run_pipeline v0 fail_at openable pl sh in
+  (forall x o c, lookup (tab (res_shell r)) x = Some (o, c) -> exists i, o = OInh i) /\
+  (res_error r = false ->
+   kids_ok (fun idx _ k => holds_only_own_ends (length (p_stages pl) - 1) idx k) 0 (p_stages pl) (res_kids r)).
+Proof.
+  intros fail_at openable pl sh i0 o0 e0 SO IO NB r. split.
+  - intros x o c H. destruct (shell_restored v0 fail_at openable pl sh NB) as (T & _); [auto|].
+    fold r in T. rewrite (T x) in H. eapply IO; eauto.
+  - intro NE. eapply kids_ok_impl; [|apply (pipeline_kids v0 openable fail_at pl sh i0 o0 e0 SO NB NE)].
+    cbn beta. intros idx st k KS HE. eapply kid_holders; eauto.
+Qed.
+Check C02_eof : forall fail_at openable pl sh i0 o0 e0,
+  std_ok (tab sh) i0 o0 e0 -> inh_only (tab sh) -> is_single_builtin pl = false ->
+  let r := run_pipeline v0 fail_at openable pl sh in
+  (forall x o c, lookup (tab (res_shell r)) x = Some (o, c) -> exists i, o = OInh i) /\
+  (res_error r = false ->
+   kids_ok (fun idx _ k => holds_only_own_ends (length (p_stages pl) - 1) idx k) 0 (p_stages pl) (res_kids r)).
+
+(* every stage is forked exactly once and the shell's table is what it was *)
 Theorem C02_once_and_shell_holds_nothing : forall v openable pl sh,
   is_single_builtin pl = false ->
   let r := run_pipeline v nf openable pl sh in
@@ -105,6 +134,7 @@ Example C02_wait_nonvacuous : fg_schedule ex_pids ex_evs.
 Proof. exact ex_schedule. Qed.
 
 Print Assumptions C02_wiring.
+Print Assumptions C02_eof.
 Print Assumptions C02_wait.
 Print Assumptions C02_wait_order_independent.
 Print Assumptions C02_once_and_shell_holds_nothing.
